@@ -10,6 +10,7 @@ import concurrent.futures
 import json
 import os
 import random
+import re
 import struct
 
 import vlib
@@ -19,6 +20,8 @@ LEVEL = "proof"
 MAXSZ = 2 << 20
 LENS = [0, 1, 7, 8, 9, 100, 4096]
 TYPES = [0, 1, 2, 3, 4, 5, 6, 7, 255, 256, 65535, 65536, 2 ** 31, 2 ** 32 - 1]
+CLIP_BODY = 5000
+CLIP_WRITTEN = 12000
 LEGACY_REPLY = bytes([0x35, 0x20, 0x30, 0x20, 0x30, 0x0a, 0, 0, 0, 0])
 
 
@@ -214,8 +217,9 @@ def gen_cases(rng, tier):
     for i in range(nseq):
         k = rng.randint(1, 5)
         lens = [rng.choice(LENS) for _ in range(k)]
-        if sum(1 for n in lens if n == 4096) > 1 and rng.random() < 0.8:
-            lens = [n if n != 4096 else 100 for n in lens[:-1]] + [lens[-1]]
+        if sum(1 for n in lens if n == 4096) > 1:          # at most one 4 KiB body per small stream
+            first = lens.index(4096)
+            lens = [n if (n != 4096 or j == first) else 100 for j, n in enumerate(lens)]
         msgs = [small_msg(rng, n) for n in lens]
         total = sum(8 + n for n in lens)
         mode = rng.choice([0, 1, 2, 2, 3, 4, 4, 5])
@@ -340,14 +344,16 @@ def coq_small_case(case, o):
     stream = stream_bytes(case)
     ms = clist([cmsg(m) for m in case["msgs"]])
     sent = [(m["t"], msg_body(m)) for m in case["msgs"]]
-    # an observed body longer than anything a small case sends (<= 4096) is clipped to 8192 bytes: it still
-    # differs from every sent body, and a multi-megabyte list literal would only overflow coqc's stack
-    got = [(d["t"], bytes.fromhex(d.get("hex", ""))[:8192]) for d in o["delivered"]]
+    # Observed values longer than anything a small case can legitimately produce are clipped (bodies to
+    # CLIP_BODY, written bytes to CLIP_WRITTEN): they still differ from every expected value, and a list
+    # literal of more than ~20000 elements overflows coqc's stack.
+    assert len(stream) + 10 < CLIP_WRITTEN and all(len(b) < CLIP_BODY for _, b in sent)
+    got = [(d["t"], bytes.fromhex(d.get("hex", ""))[:CLIP_BODY]) for d in o["delivered"]][:64]
     gdel = "ms" if got == sent else clist(["(%s, %s)" % (cN(t), cbytes(b)) for t, b in got])
     return ("(let ms : list msg := %s in mk_sc %s %s %s %s ms %s %d%%nat %s %s %s %s %s)"
             % (ms, cbytes(stream), clist([cN(k) for k in case["sizes"]]), cN(case["mode"]),
                cbytes(bytes.fromhex(case["fixed"])), ctail_small(case["tail"]), len(case["msgs"]) + 2,
-               gdel, cbytes(bytes.fromhex(o["written"])), cbool(o["closed"]), cbool(o["alloc_bounded"]),
+               gdel, cbytes(bytes.fromhex(o["written"])[:CLIP_WRITTEN]), cbool(o["closed"]), cbool(o["alloc_bounded"]),
                cN(end_code(o["end"]))))
 
 
@@ -367,7 +373,7 @@ def coq_big_case(case, o):
     gdel = clist(["(%s, %s)" % (cN(d["t"]), cN(d["n"])) for d in o["delivered"]])
     return ("(mk_bc %s %s %s %s %s %s %s %s %s %s %s %s)"
             % (ds, hdrs, tl, td, cN(case["mode"]), cbytes(bytes.fromhex(case["fixed"])), gdel,
-               cbool(o["bodies_ok"]), cbytes(bytes.fromhex(o["written"])), cbool(o["closed"]),
+               cbool(o["bodies_ok"]), cbytes(bytes.fromhex(o["written"])[:CLIP_WRITTEN]), cbool(o["closed"]),
                cbool(o["alloc_bounded"]), cN(end_code(o["end"]))))
 
 
@@ -429,6 +435,49 @@ Print gen_bad. Print corr_bad. Print prop_bad. Print gen_bad_d. Print corr_bad_d
     return rc, out, res
 
 
+def coq_tables(tables, tobs):
+    """All 65536 values of header bytes 4-5 for each sampled legacy digit pair: model (is_legacy_agent +
+    size check, through serve) and monitor (spec_legacy) against what serve() did."""
+    v = PRELUDE
+    defs = []
+    for i, (ti, to) in enumerate(zip(tables, tobs)):
+        lm, sm = int(to["legacy"] or "0", 16), int(to["silent"] or "0", 16)
+        lc = clist(["0x%x" % ((lm >> (64 * k)) & (2 ** 64 - 1)) for k in range(1024)])
+        sc = clist(["0x%x" % ((sm >> (64 * k)) & (2 ** 64 - 1)) for k in range(1024)])
+        defs.append("(%s, %s, %s, %s, %s, %s)" % (cN(ti["a"]), cN(ti["b"]), cN(ti["p6"]), cN(ti["p7"]), lc, sc))
+    v += "Definition tables : list (N * N * N * N * list N * list N) := %s.\n" % clist(defs)
+    v += """Definition bit (chunks : list N) (w : N) : bool := N.testbit (nth (N.to_nat (w / 64)) chunks 0) (w mod 64).
+Definition hdr_of (a b p6 p7 w : N) : bytes := [a; 32; b; 32; w mod 256; w / 256; p6; p7].
+(* model: the whole serve loop on the one-chunk stream; 1 = legacy answer, 0 = silent close *)
+Definition model_class (h : bytes) : N :=
+  let o := serve 2 (mk_handler 2 []) [h] in
+  match delivered o with
+  | [] => if bytes_eqb (written o) legacy_reply then 1 else if bytes_eqb (written o) [] then 0 else 2
+  | _ => 2
+  end.
+Definition obs_class (l s : list N) (w : N) : N := if bit l w then 1 else if bit s w then 0 else 2.
+(* property: legacy pattern -> the fixed answer; otherwise (announces > 2 MiB) -> silent close *)
+Definition spec_class (h : bytes) : N :=
+  if spec_legacy h then 1 else if 2097152 <? spec_announced h then 0 else 2.
+Definition tbl_bad (f : bytes -> N) (t : N * N * N * N * list N * list N) : list N :=
+  let '(a, b, p6, p7, l, s) := t in
+  filter (fun w => negb (f (hdr_of a b p6 p7 w) =? obs_class l s w)) (upto 65536).
+Definition table_corr_bad := Eval vm_compute in map (fun t => firstn 5 (tbl_bad model_class t)) tables.
+Definition table_prop_bad := Eval vm_compute in map (fun t => firstn 5 (tbl_bad spec_class t)) tables.
+Print table_corr_bad. Print table_prop_bad.
+"""
+    rc, out = vlib.coq_eval("cases_c09_tables", v, timeout=600)
+    res = {}
+    for k in ("table_corr_bad", "table_prop_bad"):
+        txt = vlib.parse_printed(out, k)
+        if txt is None:
+            res[k] = None
+            continue
+        inner = re.findall(r"\[([0-9;%N ]*)\]", txt.strip()[1:-1]) if txt.strip() not in ("[]", "nil") else []
+        res[k] = [vlib.parse_nat_list("[" + x + "]") for x in inner]
+    return rc, out, res
+
+
 # ---------------------------------------------------------------- the check
 
 def run(chk, replay=None):
@@ -449,20 +498,27 @@ def run(chk, replay=None):
         return
     inp = os.path.join(vlib.BUILD, "c09_in.json")
     outp = os.path.join(vlib.BUILD, "c09_out.jsonl")
-    json.dump({"cases": [go_case(c) for c in cases]}, open(inp, "w"))
+    if replay:
+        tables = json.load(open(replay)).get("tables", [])
+    else:
+        npairs = 1 if chk.tier == "quick" else 10
+        tables = [{"a": 0x30 + rng.randint(0, 9), "b": 0x30 + rng.randint(0, 9), "p6": rng.getrandbits(8),
+                   "p7": rng.getrandbits(8)} for _ in range(npairs)]
+    json.dump({"cases": [go_case(c) for c in cases], "tables": tables}, open(inp, "w"))
     if os.path.exists(outp):
         os.remove(outp)
     rc, out = vlib.run_go_test(binary, "TestVerifC09", {"VERIF_IN": inp, "VERIF_OUT": outp}, timeout=600)
-    obs = []
+    obs, tobs = [], []
     if os.path.exists(outp):
         for line in open(outp):
             line = line.strip()
             if line:
                 try:
-                    obs.append(json.loads(line))
+                    rec = json.loads(line)
                 except ValueError:
                     break
-    if rc != 0 or len(obs) != len(cases):
+                (tobs if "table" in rec else obs).append(rec)
+    if rc != 0 or len(obs) != len(cases) or len(tobs) != len(tables):
         if len(obs) < len(cases):
             c = cases[len(obs)]
             chk.fail("crash_case_%d.json" % c["id"],
@@ -471,7 +527,8 @@ def run(chk, replay=None):
         else:
             chk.fail("harness_run.txt", "harness TestVerifC09 failed (rc=%d):\n%s" % (rc, out[-4000:]), no_input=True)
         cases = cases[:len(obs)]
-        if not cases:
+        tables = tables[:len(tobs)]
+        if not cases and not tables:
             return
 
     # ---- evaluate model + monitor inside Coq, sharded
@@ -480,11 +537,13 @@ def run(chk, replay=None):
     nshard = max(1, min(8, len(small) // 300))
     shards = [small[i::nshard] for i in range(nshard)]
     jobs = []
-    with concurrent.futures.ThreadPoolExecutor(max_workers=nshard) as ex:
+    with concurrent.futures.ThreadPoolExecutor(max_workers=nshard + 1) as ex:
         for si, sh in enumerate(shards):
             sm = [coq_small_case(c, o) for c, o in sh]
             bg = [coq_big_case(c, o) for c, o in big] if si == 0 else []
             jobs.append((sh, big if si == 0 else [], ex.submit(coq_shard, "cases_c09_%d" % si, sm, bg)))
+        full = [(ti, to) for ti, to in zip(tables, tobs) if not to.get("aborted")]
+        tfut = ex.submit(coq_tables, [x for x, _ in full], [y for _, y in full]) if full else None
     gen_bad, corr_bad, prop_bad, eval_fail = [], [], [], []
     for sh, bg, fut in jobs:
         rc2, cout, res = fut.result()
@@ -495,6 +554,11 @@ def run(chk, replay=None):
                                ("gen_bad_d", gen_bad, bg), ("corr_bad_d", corr_bad, bg), ("prop_bad_d", prop_bad, bg)):
             for i in res[key]:
                 dst.append(pool[i])
+    tres = {"table_corr_bad": [], "table_prop_bad": []}
+    if tfut is not None:
+        rc3, tout, tres = tfut.result()
+        if rc3 != 0 or any(v is None for v in tres.values()):
+            eval_fail.append(tout[-3000:])
     if eval_fail:
         chk.fail("coq_eval.txt", "in-Coq evaluation of the C09 cases failed:\n" + "\n----\n".join(eval_fail), no_input=True)
         return
@@ -535,7 +599,27 @@ def run(chk, replay=None):
                           "size was allocated)",
                   "sent_type_len": sent, "tail": c["tail"]["kind"], "observed": o, "cases": [c]},
                  sig="c09-" + c["kind"])
+    for ti, to in zip(tables, tobs):
+        if to.get("aborted"):
+            chk.fail("table_alloc.json",
+                     {"what": "handling 256 eight-byte headers (each announcing >= 512 MiB) allocated more than 64 MiB: "
+                              "the announced amount is being allocated", "headers_done": to["done"], "cases": [],
+                      "tables": [ti]}, sig="c09-table-alloc")
+    tables = [x for x, _ in full]
+    for i, bad in enumerate(tres["table_prop_bad"]):
+        if bad:
+            ti = tables[i]
+            w = bad[0]
+            h = [ti["a"], 0x20, ti["b"], 0x20, w & 0xFF, w >> 8, ti["p6"], ti["p7"]]
+            chk.fail("table_%d.json" % i,
+                     {"what": "an 8-byte header is answered wrongly: the legacy pattern 'D D 0\\n' must get exactly the "
+                              "fixed 10-byte answer, every other header announcing > 2 MiB must get nothing; both close",
+                      "header_bytes": h, "bytes_4_5_values_first_5": bad, "cases": [], "tables": [ti]},
+                     sig="c09-legacy-table")
     broken = []
+    if any(tres["table_corr_bad"]):
+        broken.append("correspondence Framing.serve vs serve() differs on header bytes 4-5 values %s (tables %s)"
+                      % (tres["table_corr_bad"], tables))
     if not st["build_ok"]:
         broken.append("theorems of PropC09.v no longer check:\n" + st["log"][-3000:])
     if gen_bad:
@@ -551,7 +635,13 @@ def run(chk, replay=None):
         broken.append("a plain ReadMessage loop and the handler of serve() saw different messages on cases %s" % incons[:10])
     if broken and not chk.violations and not chk.known_hits:
         chk.fail("broken.txt", "\n\n".join(broken), no_input=True)
-    chk.cov["disagreements"] = {"gen": len(gen_bad), "corr": len(corr_bad), "prop": len(prop_bad), "rm_loop": len(incons)}
+    chk.cov["disagreements"] = {"gen": len(gen_bad), "corr": len(corr_bad), "prop": len(prop_bad), "rm_loop": len(incons),
+                                "table_corr": sum(len(b) for b in tres["table_corr_bad"]),
+                                "table_prop": sum(len(b) for b in tres["table_prop_bad"])}
+    chk.cov["exhaustive_header_tables"] = {"digit_pairs": [(chr(t["a"]), chr(t["b"])) for t in tables],
+                                           "headers_each": 65536}
+    chk.cov["evaluations"] += 65536 * len(tables)
+    chk.cov["distinct_nontrivial"] += 65536 * len(tables)
     chk.assumptions += [
         "a transport is a sequence of Read results (chunks); a Read never returns data together with an error",
         "writes to the connection succeed (a failed reply write just ends the loop; not modelled)",
